@@ -1,4 +1,3 @@
 SPECIFICATION GSpec
 CONSTANT GenDepth = 6
-CONSTRAINT Emit
 CHECK_DEADLOCK FALSE
